@@ -2,6 +2,7 @@
 import sys
 
 from sa import report, partial as P, rules_read as RD, rules_marks as RM
+from sa import rules_extra as RX
 
 FRONT = ['reader', 'scanner', 'parser', 'composer']
 
@@ -33,7 +34,7 @@ def run(ctx, repo):
     RD.r_sentinel_appended(ctx, repo)
     RM.r_breakset_positions(ctx, repo)
     RM.r_parser_stack_discipline(ctx, repo)
-
+    RX.r_none_deref(ctx, repo)
 
 if __name__ == '__main__':
     sys.exit(report.main('C03', 'other', run))
